@@ -75,6 +75,45 @@ def _uses_of(fn, local, after=None):
     return out
 
 
+def erriter_rules(facts, rep):
+    """a `Result` is also an iterator of zero or one items: handing I/O results to `flat_map` / `flatten` / `filter_map(Result::ok)`,
+    or turning one into an `Option` with `.ok()` / `.err()`, makes the error items vanish without a trace (a failed read of a
+    directory record becomes "one entry fewer").  The crate does none of this today; the count is zero and must stay zero."""
+    rule = "C11-DROPRES"
+    base = getattr(facts, "orig", facts)
+    hits = []
+    for f in base.fns:
+        if not re.match(r"^(<)?(read|write|spec|types|aes|aes_ctr|crc32|zipcrypto|cp437|compression|result)::", f.path):
+            continue
+        for bi, t in f.calls():
+            c = t.get("callee") or ""
+            m = re.search(r"Iterator::(flat_map|flatten|filter_map|find_map|map_while)$|Result::<T, E>::(ok|err)$", c)
+            if not m:
+                continue
+            what = m.group(1) or m.group(2)
+            if what in ("ok", "err"):
+                ety = " ".join(str(g) for g in (t.get("gargs") or []))
+                a0 = t["args"][0] if t["args"] else None
+                aty = (f.locals[a0["place"]["l"]].get("ty") if a0 and a0["k"] != "const" and not a0["place"]["p"] else (a0 or {}).get("ty")) or ""
+                if re.search(r"io::Error|io::error::Error|ZipError", ety + " " + aty):
+                    hits.append("%s: .%s() on %s" % (where(f, t["span"]), what, aty[:50]))
+                continue
+            # an adaptor whose closure yields a Result (or any adaptor over an iterator of Results)
+            tys = " ".join([str(g) for g in (t.get("gargs") or [])] + [str(f.locals[a["place"]["l"]].get("ty")) for a in t["args"] if a["k"] != "const" and not a["place"]["p"]])
+            clo = [a for a in t["args"][1:] if a["k"] != "const" and not a["place"]["p"]]
+            rty = ""
+            for a in clo:
+                from engine.inline import _closure_of
+                cp = _closure_of(f.raw, a["place"]["l"])
+                cf = base.by_path.get(cp) if cp else None
+                if cf is not None:
+                    rty = cf.locals[0]["ty"] or ""
+            if rty.startswith("std::result::Result<") or (what == "flatten" and "std::result::Result<" in tys):
+                hits.append("%s: %s over %s" % (where(f, t["span"]), what, (rty or tys)[:60]))
+    return rep.check(not hits, rule, "no-result-used-as-iterator-or-option", "", "no I/O result is flattened / filtered / turned into an Option",
+                     "I/O results are silently discarded: %s" % hits[:3])
+
+
 def dropres_rules(facts, rep, reach):
     rule = "C11-DROPRES"
     ok = True
@@ -562,6 +601,7 @@ def run(ctx, rep):
     rr = [f.path for f in facts.fns if is_read_root(f) or is_write_root(f)]
     reach, _ = facts.reachable_from(rr)
     dropres_rules(facts, rep, reach)
+    erriter_rules(facts, rep)
     swallow_rules(facts, rep, reach)
     errpanic_rules(facts, rep, reach)
     pos_rules(facts, rep, reach)
